@@ -309,6 +309,11 @@ class Run:
                 raise PyExc("UnboundLocalError", name)
             return v
         mi = self.program.modules.get(fr.module)
+        if getattr(self.spec, "template_names", False):
+            h = getattr(self.spec, "resolve_name", None)
+            r = h(self, name) if h is not None else NotImplemented
+            if r is not NotImplemented:
+                return r
         if mi and name in mi.names:
             return self._module_name(mi.name, name, node)
         if name in BUILTINS:
@@ -317,6 +322,11 @@ class Run:
             return ClassV("exc:" + name)
         if name in ("True", "False", "None"):
             return {"True": True, "False": False, "None": None}[name]
+        h = getattr(self.spec, "resolve_name", None)
+        if h is not None:
+            r = h(self, name)
+            if r is not NotImplemented:
+                return r
         raise OutOfDialect(f"unresolved name {name}", node)
 
     def _module_name(self, mod: str, name: str, node: ast.AST) -> Any:
